@@ -22,7 +22,7 @@ def one(item):
         for p in PROPS:
             r = subprocess.run(['/venv/bin/python', os.path.join(HERE, 'check.py'), p, '--root', root], capture_output=True, text=True)
             if r.returncode:
-                rules = sorted(set(re.findall(r'\[([A-Z]+[0-9]*)\]', '\n'.join(l for l in r.stdout.splitlines() if l.startswith('  python/')))))
+                rules = sorted(set(re.findall(r'\[([A-Z]+[0-9]*[A-Z]?)\]', '\n'.join(l for l in r.stdout.splitlines() if l.startswith('  python/')))))
                 out[p] = {'exit': r.returncode, 'rules': rules}
     finally:
         shutil.rmtree(root, ignore_errors=True)
@@ -43,6 +43,9 @@ def main():
     for d in sorted(glob.glob('/tmp/w4_*/_seeded/m*')):
         pid = d.split('/')[2][3:]
         items.append((f'{pid}-r4{os.path.basename(d)}', os.path.join(d, 'patch.diff')))
+    for d in sorted(glob.glob('/tmp/w6_*/_seeded/m*')):
+        pid = d.split('/')[2][3:]
+        items.append((f'{pid}-r6{os.path.basename(d)}', os.path.join(d, 'patch.diff')))
     for d in sorted(glob.glob('/tmp/w5_*/_seeded/m*')):
         pid = d.split('/')[2][3:]
         items.append((f'{pid}-r5{os.path.basename(d)}', os.path.join(d, 'patch.diff')))
